@@ -225,6 +225,15 @@ func rulesHandler(args []string) (string, []string) {
 	switch {
 	case len(args) >= 3 && args[0] == "decode":
 		typ := args[1]
+		// a type name that cannot be a token of the line protocol (empty, blanks, control bytes) comes as hex:<hex>;
+		// such a name is never a registered one, so the model answers it as an unknown type
+		if strings.HasPrefix(typ, "hex:") {
+			t, ok := unhex(typ[4:])
+			if !ok {
+				return "bad-request", nil
+			}
+			typ = t
+		}
 		value, ok := unhex(args[2])
 		if !ok {
 			return "bad-request", nil
